@@ -73,22 +73,27 @@ def _feed_yaml(res: C.Result, groups):
     lines: List[str] = []
     meta: Dict[str, Any] = {}
     for gid, ap, defs in groups:
-        for cid, blk in L.run_yaml_group(gid, ap, defs):
+        # every second group goes through a Parser object that has already failed on a file defining the same names
+        # with other layouts (parse() -> clear() -> parse() on the same object)
+        reuse = gid.startswith("yd") or (sum(map(ord, gid)) % 2 == 0)
+        for cid, blk in L.run_yaml_group(gid, ap, defs, reuse):
             lines += blk
-            meta[cid] = (ap, defs, blk)
+            meta[cid] = (ap, defs, blk, reuse)
     out = C.parse_driver(C.run_driver("layout", lines))
     oc = res.extra.setdefault("yaml_outcomes", {})
-    for cid, (ap, defs, blk) in meta.items():
+    for cid, (ap, defs, blk, reused) in meta.items():
         r = out.get(cid)
         if r is None:
             raise C.MachineryError(f"driver gave no answer for case {cid}")
         obs = blk[2]
+        oc["parser_reused_after_failed_parse"] = oc.get("parser_reused_after_failed_parse", 0) + int(reused)
         reuse = any(isinstance(b, str) for _n, b, _k in defs)
         res.note_case((ap, repr(defs), cid.rsplit(".", 1)[1]), nontrivial=True)
         res.traces_validated += 1
         kind = ("reuse:" if reuse else "plain:") + obs.split()[1] + ("" if obs.split()[1] == "ok" else ":" + obs.split()[2])
         oc[kind] = oc.get(kind, 0) + 1
-        case = {"auto_pad": ap, "yaml_group": [list(x) for x in defs], "definition": cid.rsplit(".", 1)[1], "protocol": blk}
+        case = {"auto_pad": ap, "yaml_group": [list(x) for x in defs], "definition": cid.rsplit(".", 1)[1], "protocol": blk,
+                "parser_reused": reused}
         for d in r["corr"]:
             res.corr_diffs.append({"name": "corr:M6/layout(yaml)", "diff": d, "case": case})
         for v in r["props"].get(PROP, []):
@@ -148,7 +153,7 @@ def replay(body: Dict[str, Any]) -> int:
     if case and "yaml_group" in case:
         defs = [(n, b if isinstance(b, str) else [tuple(m) for m in b], k) for n, b, k in case["yaml_group"]]
         bad = 0
-        for cid, blk in L.run_yaml_group("replay", case["auto_pad"], defs):
+        for cid, blk in L.run_yaml_group("replay", case["auto_pad"], defs, bool(case.get("parser_reused"))):
             out = C.run_driver("layout", blk)
             print("\n".join(blk)); print("\n".join(out))
             bad += any(" fail" in o or "CORR diff" in o for o in out)
